@@ -583,6 +583,63 @@ def errors_propagate(chk, prog):
     chk.floor("fallible loader steps", n, 8)
 
 
+def unclosed_is_error(chk, prog):
+    """R2.unclosed: a section that is still open when its file ends is an error, in the main file and in an included one alike: from the
+    `None` edge of the line iterator in parse_section no `Ok(..)` return can be reached (an unclosed `route { ..` in an included file would
+    otherwise swallow the sections after it without a diagnostic)."""
+    from .c01 import some_edge_of
+    n = 0
+    for pth, bb in sorted(prog.bodies.items()):
+        if not core.re.search(r"^humphrey_server::config::tree::parse_section$", pth):
+            continue
+        oks = core.ok_return_blocks(bb, "Ok")
+        for nb, t in bb.calls_to(r"Iterator>?::next$|Iterator::next$"):
+            ty = " ".join(t.get("arg_tys") or [])
+            if "TracebackIterator" not in ty and "Lines" not in ty:
+                continue
+            edges = some_edge_of(prog, bb, nb, "None")
+            for sb_, tgt in edges:
+                n += 1
+                reach = bb.reachable([tgt])
+                bad = [o for o in oks if o in reach]
+                chk.ob("R2.unclosed", pth, "end of file inside a section is an error (no Ok result once the line iterator has run out)", not bad,
+                       "when the lines run out the section can still be returned as parsed: a missing `}` is accepted and the sections after it are nested under the unclosed one",
+                       where=bb.where(nb))
+    chk.floor("line-iterator exhaustion edges in parse_section", n, 1)
+
+
+def host_routes_exact(chk, prog):
+    """R5.host_routes: the routes of a host are exactly the routes written in its block — none inherited from `HostConfig::default()` (whose
+    catch-all `/*` -> `.` directory route exists for running without a configuration file): the `routes` field of the HostConfig that
+    parse_host returns is the list parsed from the node on every path."""
+    fn = CFG + "parse_host"
+    b = prog.bodies.get(fn)
+    chk.floor("parse_host", 1 if b else 0, 1)
+    if not b:
+        return
+    st = prog.structs.get("humphrey_server::config::config::HostConfig", {}).get("fields", [])
+    ri = next((i for i, x in enumerate(st) if x["name"] == "routes"), None)
+    n = 0
+    for bi, blk in enumerate(b.blocks):
+        for s_ in blk["stmts"]:
+            rv = s_.get("rv")
+            if not (rv and rv.get("k") == "agg" and str(rv.get("adt", "")).endswith("config::HostConfig") and "routes" in (rv.get("fields") or [])):
+                continue
+            n += 1
+            d = core.describe(prog, b, rv["ops"][rv["fields"].index("routes")])
+            inherited = core.desc_contains(d, lambda y: y[0] == "call" and y[1].endswith("::default") and "Default" in y[1])
+            ok = not inherited
+            if inherited and not s_["pl"]["p"]:
+                # built from the default and then given its routes: the assignment must lie on every path to the return
+                writes = [bj for bj, blk2 in enumerate(b.blocks) for s2 in blk2["stmts"]
+                          if "pl" in s2 and s2["pl"]["l"] == s_["pl"]["l"] and [e[1] for e in s2["pl"]["p"] if e[0] == "f"] == [ri]]
+                ok = bool(writes) and core.must_pass(b, [bi], core.return_blocks(b), through_nodes=writes) is None
+            chk.ob("R5.host_routes", fn, "HostConfig.routes is the list parsed from the host's block on every path", ok,
+                   "the routes can be those of HostConfig::default() (the built-in `/*` directory route): a host written with no routes serves the working directory",
+                   where=b.where(bi))
+    chk.floor("HostConfig values built in parse_host", n, 1)
+
+
 def comments_everywhere(chk, prog):
     """R4.comments: a comment may follow any line.  Every line the tree parser takes from its line iterator goes through `clean_up` (comment
     removed, trimmed) before anything looks at it; a site that compares the raw line (e.g. the search for `server {`) makes the meaning of a
@@ -639,6 +696,8 @@ def run(chk):
     error_lines(chk, prog)
     line_source(chk, prog)
     comments_everywhere(chk, prog)
+    unclosed_is_error(chk, prog)
+    host_routes_exact(chk, prog)
     errors_propagate(chk, prog)
     number_ranges(chk, prog)
     ordering(chk, prog)
